@@ -10,12 +10,48 @@ EXPLANATION = (
     "those digits; in the header loop every successfully read non-empty line is pushed (no header dropped or reordered; push is the only mutation); "
     "method, target, version and header list flow from the parser into the Request fields through moves/clones only, with no content-changing "
     "function (case mapping, replace, sort, dedup, truncate ...) on the way, and the accessors return those fields; the peer address is the TCP "
-    "peer address on TCP and None on UNIX sockets. That split/trim compute the RFC grammar for all inputs is not decided.")
+    "peer address on TCP and None on UNIX sockets; the optional whitespace before a header value is removed by the header parser and the one after it by "
+    "the parser or, from the line, by the head reader's header loop (necessary condition over the std trimming calls on that route). That split/trim compute the RFC grammar for all inputs is not decided.")
 TRUSTED = ["rustc MIR", "str::split / splitn / trim semantics", "AsciiString::from_ascii stores the bytes unchanged"]
 
 METHODS = {"GET": "Get", "HEAD": "Head", "POST": "Post", "PUT": "Put", "DELETE": "Delete", "CONNECT": "Connect", "OPTIONS": "Options", "TRACE": "Trace", "PATCH": "Patch"}
 CONTENT_CHANGING = re.compile(r"::(to_(ascii_)?(lower|upper)case|make_ascii_(lower|upper)case|to_lowercase|to_uppercase|replace|replacen|retain|dedup\w*|sort\w*|reverse|truncate|insert|remove|swap\w*|"
                               r"trim_matches|trim_start_matches|trim_end_matches|strip_prefix|strip_suffix|escape_\w+|repeat|drain|pop|clear|split_off|rotate_\w+|percent_decode\w*|decode\w*|from_utf8_lossy)$")
+
+
+TRAIL_TRIM = re.compile(r"<impl str>::(trim|trim_end|trim_right|trim_ascii|trim_ascii_end|trim_end_matches|trim_right_matches|trim_matches)$|<impl \[u8\]>::(trim_ascii|trim_ascii_end)$")
+LEAD_TRIM = re.compile(r"<impl str>::(trim|trim_start|trim_left|trim_ascii|trim_ascii_start|trim_start_matches|trim_left_matches|trim_matches)$|<impl \[u8\]>::(trim_ascii|trim_ascii_start)$")
+
+
+def value_trim_rule(ctx, rule, PM):
+    facts = ctx.facts
+    import inline
+    import queue_rules as Q
+    hd = facts.trait_method(T_FROMSTR, HEADER, "from_str")
+    if hd is None:
+        return
+    hd = facts.fns[hd] if isinstance(hd, str) else hd
+    fh = inline.inlined(facts, hd.id, stop=lambda d: False, extern_ok=Q.std_small)
+    ctx.touch(fh)
+    rd = PM.rd
+    in_parser = [call_name(t) for bb, t in fh.calls()]
+    lines = PM.line_calls()
+    first = [b for b in lines if all(rd.dominates(b, x, unwind=False) for x in lines)]
+    loop_lines = [b for b in lines if b not in first]
+    # (of the head reader only what follows the reading of a header line: the request line's own trimming says nothing about header values)
+    in_reader = [call_name(t) for bb, t in rd.calls() if any(b != bb and rd.dominates(b, bb, unwind=False) for b in loop_lines)]
+    # hand-written scanning (a loop over bytes / chars deciding where the value ends) is not judged: only the std trimming calls are read
+    handwritten = any(re.search(r"is_ascii_whitespace$|is_whitespace$|<impl str>::(rfind|find|char_indices|bytes|chars)$|Iterator>::(rposition|position)$", n) for n in in_parser)
+    lead = any(LEAD_TRIM.search(n) for n in in_parser)
+    trail = any(TRAIL_TRIM.search(n) for n in in_parser + in_reader)
+    where = "%s:%d" % (hd.file, hd.line)
+    if handwritten and not (lead and trail):
+        ctx.counts[rule + " value trimming is hand-written (not judged)"] = 1
+        return
+    ctx.ob(rule, "%s|value-leading-whitespace-removed" % hd.id, "the optional whitespace between the colon and the header value is removed by the header parser", lead, where)
+    ctx.ob(rule, "%s|value-trailing-whitespace-removed" % hd.id,
+           "the optional whitespace after the header value is removed (from the line by the head reader, or from the value by the header parser): `Host: a \\r\\n` is delivered as `a`, and `Content-Length: 5 ` is the number 5",
+           trail, where, None if trail else "neither the head reader nor the header parser removes trailing whitespace")
 
 
 def header_loop_rules(ctx, rule):
@@ -198,6 +234,11 @@ def run(ctx):
     lines = PM.line_calls()
     first = [b for b in lines if all(rd.dominates(b, x, unwind=False) for x in lines)]
     nrc = [bb for bb, t in rd.calls() if call_matches(t, r"^request::new_request$")]
+
+    # ---- C02.9 header values: the optional whitespace on BOTH sides of the value is removed between the line reader and the stored Header
+    # (the line keeps its leading whitespace -- C16.2 -- so the leading side is the header parser's; the trailing side may be removed from
+    # the line or from the value).  Decided as a necessary condition on the calls of the two functions the text passes through.
+    value_trim_rule(ctx, "C02.9", PM)
 
     # ---- C02.4 / C02.5 provenance: request line -> new_request arguments -> Request fields -> accessors
     ok_args = len(first) == 1 and len(nrc) == 1
